@@ -6,7 +6,7 @@ Import ListNotations.
 Require Import Celma.Common.Res.
 Local Open Scope N_scope.
 
-Definition byte := N.
+Notation byte := N (only parsing).
 
 (** size_t arithmetic: 2^64 and std::string::npos *)
 Definition M64 : N := 18446744073709551616.
